@@ -34,20 +34,26 @@
 (***************************************************************************)
 EXTENDS Integers, Sequences, FiniteSets, TLC, Json, CSV, IOUtils
 
-CONSTANTS Hosts, MaxPerHost, MaxHops, Fixed, Emit, CredSources, Cut, Kinds, ActHosts
+CONSTANTS Hosts, MaxPerHost, MaxHops, Fixed, Emit, CredSources, Cut, Kinds, ActHosts,
+          Forms     \* how a redirecting server spells Location: "abs" (absolute URL) | "netpath" (//host:port/path) | "path" (/path)
 
 Scheme(h) == IF h = "plain" THEN "http" ELSE "https"
 Answers == {<<"ok", "-">>, <<"unauth", "-">>} \cup {<<"redir", t>> : t \in Hosts}
 
-VARIABLES pc, host, hdr, hops, access, origHdr, frames, sawHttps, log, hlog, script, mode, source, result, kind, acthost, qtry
-vars == <<pc, host, hdr, hops, access, origHdr, frames, sawHttps, log, hlog, script, mode, source, result, kind, acthost, qtry>>
-View == <<pc, host, hdr, hops, access, origHdr, frames, sawHttps, script, mode, source, result, kind, acthost, qtry>>
+VARIABLES pc, host, hdr, hops, access, origHdr, frames, sawHttps, log, hlog, script, mode, source, form, result, kind, acthost, qtry
+vars == <<pc, host, hdr, hops, access, origHdr, frames, sawHttps, log, hlog, script, mode, source, form, result, kind, acthost, qtry>>
+View == <<pc, host, hdr, hops, access, origHdr, frames, sawHttps, script, mode, source, form, result, kind, acthost, qtry>>
 
 Init == /\ kind \in Kinds /\ acthost \in ActHosts /\ (kind = "api" => acthost = "api")
         /\ pc = "start" /\ host = "api" /\ hdr = "none" /\ hops = 0 /\ qtry = 0
         /\ origHdr = IF kind = "storage" THEN "act" ELSE "none"      \* the action's header is on the request from the start
         /\ frames = <<>> /\ sawHttps = FALSE /\ log = <<>> /\ hlog = <<>> /\ script = [h \in Hosts |-> <<>>] /\ result = "none"
         /\ mode \in {"none", "basic"} /\ source \in CredSources
+        \* every redirect of the run spells its Location in this form where the form can express the
+        \* target (a network-path reference keeps the scheme, a path keeps scheme, host and port), else
+        \* as an absolute URL.  The identity a Location denotes (RFC 3986, 5.2) is all the rules below
+        \* ever look at: the form is never an argument of an action.
+        /\ form \in Forms
         \* a transfer request runs under the access mode recorded for its own URL (none until a 401 teaches
         \* otherwise), through DoWithAuthNoRetry; an API request under the mode configured for the API URL
         /\ access = IF kind = "storage" THEN "none" ELSE mode
@@ -65,21 +71,22 @@ Fill(h, g) == IF g[2] THEN Append(hlog, <<"fill", h>>) ELSE hlog
 Start == /\ pc = "start"
          /\ LET g == GetCreds(acthost, origHdr, access) IN
             /\ host' = acthost /\ hops' = 0 /\ hdr' = g[1] /\ origHdr' = g[1]
-            /\ frames' = << [host |-> acthost, creds |-> g[2]] >>
+            /\ frames' = << [host |-> acthost, creds |-> g[2], ui |-> (source = "urluser" /\ kind = "api")] >>
             \* a transfer attempt begins with the batch call that hands out the action: an API request of
             \* its own (not followed here), for which the helper is asked and approved under basic access
             /\ hlog' = IF kind = "storage" /\ mode = "basic" /\ source = "helper"
                          THEN hlog \o << <<"fill", "api">>, <<"approve", "api">> >> ELSE Fill(acthost, g)
          /\ pc' = "send" /\ sawHttps' = FALSE
-         /\ UNCHANGED <<access, log, script, mode, source, result, kind, acthost, qtry>>
+         /\ UNCHANGED <<access, log, script, mode, source, form, result, kind, acthost, qtry>>
 
 \* net/http itself adds Basic credentials from the userinfo of the URL it is given: the caller's
-\* request (hop 0) always goes to the configured URL, a Location never carries userinfo here
-Wire == IF hdr = "none" /\ source = "urluser" /\ hops = 0 /\ kind = "api" THEN "api" ELSE hdr
+\* request goes to the configured URL; a Location never spells userinfo here, but a path-only
+\* Location is resolved against the URL just requested and so inherits its userinfo (ui)
+Wire == IF hdr = "none" /\ frames[Len(frames)].ui THEN "api" ELSE hdr
 Send == /\ pc = "send" /\ pc' = "wait"
         /\ log' = Append(log, [host |-> host, auth |-> Wire, scheme |-> Scheme(host), hop |-> hops, afterHttps |-> sawHttps])
         /\ sawHttps' = (sawHttps \/ Scheme(host) = "https")
-        /\ UNCHANGED <<host, hdr, hops, access, origHdr, frames, hlog, script, mode, source, result, kind, acthost, qtry>>
+        /\ UNCHANGED <<host, hdr, hops, access, origHdr, frames, hlog, script, mode, source, form, result, kind, acthost, qtry>>
 
 \* helper calls made while the frames unwind, innermost first
 Unwind(what) == LET n == Len(frames)
@@ -104,7 +111,7 @@ Respond(a) ==
   /\ IF Len(script[host]) < MaxPerHost /\ Len(log) < Cut
        THEN script' = [script EXCEPT ![host] = Append(@, a)]
        ELSE a = Implicit(host) /\ script' = script
-  /\ UNCHANGED <<log, mode, source, sawHttps, kind, acthost>>
+  /\ UNCHANGED <<log, mode, source, form, sawHttps, kind, acthost>>
   /\ IF a[1] = "ok" THEN
         /\ hlog' = hlog \o Unwind("approve") /\ access' = access /\ Finish("ok")
      ELSE IF a[1] = "unauth" THEN
@@ -122,7 +129,7 @@ Respond(a) ==
            ELSE LET carried == IF t = host THEN hdr ELSE "none"    \* Authorization only survives a same host:port redirect
                     g == GetCreds(t, carried, access)
                 IN /\ host' = t /\ hops' = hops + 1 /\ hdr' = g[1]
-                   /\ frames' = Append(frames, [host |-> t, creds |-> g[2]])
+                   /\ frames' = Append(frames, [host |-> t, creds |-> g[2], ui |-> (frames[Len(frames)].ui /\ form = "path" /\ t = host)])
                    /\ hlog' = Fill(t, g)
                    /\ pc' = "send" /\ UNCHANGED <<origHdr, result, qtry>>
 
@@ -137,7 +144,7 @@ ChainBounded == hops < MaxHops
 HelperSound  == \A i \in DOMAIN hlog : hlog[i][1] \in {"approve", "reject"} =>
                    \E j \in 1..(i - 1) : hlog[j] = <<"fill", hlog[i][2]>>
 
-Script == [mode |-> mode, source |-> source, kind |-> kind, acthost |-> acthost, answers |-> script',
+Script == [mode |-> mode, source |-> source, form |-> form, kind |-> kind, acthost |-> acthost, answers |-> script',
            reqs |-> [i \in DOMAIN log |-> <<log[i].host, log[i].auth>>], helper |-> hlog', result |-> result']
 EmitEdge == (Emit /\ pc' = "done" /\ pc # "done") => CSVWrite("%1$s", <<ToJson(Script)>>, IOEnv.OUT)
 =============================================================================
